@@ -13,6 +13,7 @@ import (
 	"github.com/ipfs/go-cid"
 	"github.com/ipfs/go-unixfsnode"
 	"github.com/ipfs/go-unixfsnode/directory"
+	"github.com/ipfs/go-unixfsnode/file"
 	"github.com/ipfs/go-unixfsnode/hamt"
 	dagpb "github.com/ipld/go-codec-dagpb"
 	"github.com/ipld/go-ipld-prime"
@@ -95,6 +96,23 @@ func runReifyInput(rep *Report, in ReifyInput, cf *CaseFile) {
 			})
 		case "list":
 			node, _ = qp.BuildList(basicnode.Prototype.Any, -1, func(la datamodel.ListAssembler) { qp.ListEntry(la, qp.Int(1)) })
+		case "adl-rawfile":
+			// nodes that are ADLs already (not dag-pb nodes): a file view over a raw leaf, a reified directory, a reified
+			// file - reifying them again hands them back as they are
+			n, err := file.NewUnixFSFile(context.Background(), basicnode.NewBytes([]byte("raw leaf")), ls)
+			must(err)
+			node = n
+		case "adl-dir", "adl-file", "adl-shard":
+			d := map[string][]byte{"adl-dir": {8, 1}, "adl-file": ufsData(2, []byte("inline"), true, nil, nil, nil, nil),
+				"adl-shard": ufsData(5, []byte{0}, true, nil, nil, func() *uint64 { v := uint64(0x22); return &v }(), func() *uint64 { v := uint64(8); return &v }())}[in.NonPb]
+			pbn, err := qp.BuildMap(dagpb.Type.PBNode, -1, func(ma datamodel.MapAssembler) {
+				qp.MapEntry(ma, "Links", qp.List(0, func(datamodel.ListAssembler) {}))
+				qp.MapEntry(ma, "Data", qp.Bytes(d))
+			})
+			must(err)
+			rn, err := unixfsnode.Reify(ipld.LinkContext{Ctx: context.Background()}, pbn, ls)
+			must(err)
+			node = rn
 		default:
 			node = basicnode.NewLink(cidlink.Link{Cid: rawCid([]byte("x"))})
 		}
@@ -156,18 +174,22 @@ func runReifyInput(rep *Report, in ReifyInput, cf *CaseFile) {
 		fail("C14", "panic", "reification panicked", "node or error", "panic")
 		fail("C13", "reify-panic", "reification panicked", "node or error", "panic")
 	case o.Class == "ok":
-		switch x := out.(type) {
-		case unixfsnode.PathedPBNode:
-			cls = 1
-		case directory.UnixFSBasicDir:
-			cls = 3
-		case hamt.UnixFSHAMTShard:
-			cls = 4
-		default:
-			if out == node {
-				cls = 0
-			} else if _, isL := x.(datamodel.LargeBytesNode); isL || out.Kind() == datamodel.Kind_Bytes {
-				cls = 2
+		if in.NonPb != "" && out == node {
+			cls = 0 // a node that is not a dag-pb node (an ADL of this module included) is handed back as it is
+		} else {
+			switch x := out.(type) {
+			case unixfsnode.PathedPBNode:
+				cls = 1
+			case directory.UnixFSBasicDir:
+				cls = 3
+			case hamt.UnixFSHAMTShard:
+				cls = 4
+			default:
+				if out == node {
+					cls = 0
+				} else if _, isL := x.(datamodel.LargeBytesNode); isL || out.Kind() == datamodel.Kind_Bytes {
+					cls = 2
+				}
 			}
 		}
 		obs = fmt.Sprintf("(ROk %d)", cls)
@@ -390,7 +412,7 @@ func scnReify(rep *Report, rng *Rng, tier string, outdir string) {
 			}
 		}
 	}
-	for _, k := range []string{"string", "bytes", "map", "list", "link"} {
+	for _, k := range []string{"string", "bytes", "map", "list", "link", "adl-rawfile", "adl-dir", "adl-file", "adl-shard"} {
 		for _, lazy := range []bool{true, false} {
 			in := ReifyInput{NonPb: k, Lazy: lazy, Via: "direct", Desc: "nonpb-" + k}
 			runReifyInput(rep, in, cf)
